@@ -91,6 +91,9 @@ META = {
         "`node[0].children` reads - keep only the children of the content node), and the hand-over dominates every "
         "`donor.parent.replace(donor, placeholder)` (Element.replace copies no attributes). R1 - a transition kept in the `details` of "
         "a docutils pending node is not an attach. "
+        "R5 (returned collections): nodes found by a tree walk (findall/traverse) of X count as nodes of X.children; two returned "
+        "collections over the same nodes are accepted only when one of them is emptied out of the tree first (`for m in msgs: "
+        "m.parent.remove(m)` on every iteration, dominating the return) and the other is the live child list or a copy taken after that. "
         "R6: the first child a new section can receive, on every path, is its nodes.title (interprocedural may-append summary: "
         "direct appends, note_*_target(_, msgnode) where msgnode may be the node - also through a conditional expression or a helper that may hand its argument back -, create_warning(append_to=), becoming the current node; parameter guards of "
         "helpers evaluated against the call's literal arguments). "
@@ -2856,6 +2859,11 @@ def _collection_source(e: ast.expr, fi: FunctionInfo, depth: int = 0) -> str | N
         return _collection_source(e.args[0], fi, depth + 1)
     if isinstance(e, ast.Call) and dotted(e.func) == "filter" and len(e.args) == 2:
         return _collection_source(e.args[1], fi, depth + 1)
+    # the descendants of X found by a tree walk lie in the subtrees of X.children
+    if isinstance(e, ast.Call) and isinstance(e.func, ast.Attribute) and e.func.attr in ("findall", "traverse") and isinstance(e.func.value, (ast.Name, ast.Attribute)):
+        return f"{unparse(e.func.value)}.children"
+    if isinstance(e, ast.Call) and isinstance(e.func, ast.Call) and dotted(e.func.func) == "findall" and len(e.func.args) == 1:
+        return f"{unparse(e.func.args[0])}.children"
     if isinstance(e, ast.Subscript) and isinstance(e.slice, ast.Slice):
         return _collection_source(e.value, fi, depth + 1)
     if isinstance(e, (ast.ListComp, ast.GeneratorExp)) and len(e.generators) == 1 and unparse(e.elt) == unparse(e.generators[0].target):
@@ -2888,6 +2896,45 @@ def _appended_nodes(fi: FunctionInfo, name: str) -> bool:
     return any(isinstance(recv, ast.Name) and recv.id == name for _, recv, _, _ in _attach_events(fi))
 
 
+def _detach_loop(fi: FunctionInfo, e: ast.expr) -> ast.For | None:
+    """`for m in <e>: m.parent.remove(m)` - every node of the collection held in local ``e`` is taken out of its parent."""
+    if not isinstance(e, ast.Name):
+        return None
+    for lp in fi.local_nodes():
+        if isinstance(lp, ast.For) and isinstance(lp.iter, ast.Name) and lp.iter.id == e.id and isinstance(lp.target, ast.Name) and not lp.orelse:
+            v = lp.target.id
+            # the removal must happen on every iteration: a top-level statement of the body
+            if any(isinstance(st, ast.Expr) and isinstance(st.value, ast.Call) and _is_discard_of(st.value, v, fi) and isinstance(st.value.func, ast.Attribute) and st.value.func.attr == "remove" for st in lp.body):
+                return lp
+    return None
+
+
+def _detached_before_handed_out(fi: FunctionInfo, ret: ast.Return, a: ast.expr, b: ast.expr) -> bool:
+    """Two returned collections draw on the same nodes, but one of them is emptied out of the tree first: the other is
+    then disjoint from it if it is the live child list (read at the return) or a copy taken after the removal."""
+    cfg = get_cfg(fi)
+    rst = cfg.stmt_of(ret)
+    for taken, other in ((a, b), (b, a)):
+        lp = _detach_loop(fi, taken)
+        if lp is None or lp not in cfg.dom().get(rst, set()) or any(ret is y for y in ast.walk(lp)):
+            continue
+        # the collection must not be refilled / rebound after the loop
+        if isinstance(taken, ast.Name) and any(cfg.stmt_of(bd) in cfg.reachable_from(("F", lp)) for bd, _, _ in _bindings(fi, taken.id) if bd is not lp):
+            continue
+        if isinstance(other, ast.Attribute) and other.attr == "children":
+            return True  # read when the function returns: after the removal
+        if isinstance(other, ast.Name):
+            bs = [(bd, v) for bd, v, i in _bindings(fi, other.id) if not isinstance(bd, ast.AugAssign)]
+            if len(bs) != 1 or bs[0][1] is None:
+                return False
+            bd, v = bs[0]
+            if isinstance(v, ast.Attribute) and v.attr == "children":
+                return True  # the same list object as the node's child list (no copy)
+            bst = cfg.stmt_of(bd)
+            return lp in cfg.dom().get(bst, set()) and not any(bd is y for y in ast.walk(lp))  # a copy taken after the removal
+    return False
+
+
 def _returned_collections_disjoint(corpus: Corpus, rep: Report) -> None:
     """A function that hands out several node collections at once (docutils' `(nodes, messages)` convention: the
     caller attaches both) must not put the same node objects into two of them."""
@@ -2915,6 +2962,9 @@ def _returned_collections_disjoint(corpus: Corpus, rep: Report) -> None:
                         dup = (a, b, sa.partition("|if ")[0])
                     elif sh is None:
                         unsure = (a, b)
+            if dup and _detached_before_handed_out(fi, r, dup[0], dup[1]):
+                rep.ok("C03.R5", key, site, f"the nodes collected in `{short(dup[1], 30)}` / `{short(dup[0], 30)}` are removed from their parents before the other collection is read")
+                continue
             if unsure and not dup:
                 rep.error("C03.R5", f"{site} {key}: cannot tell whether `{short(unsure[0], 40)}` and `{short(unsure[1], 40)}` (two filtered views of one node list) overlap")
             elif dup:
@@ -4131,6 +4181,17 @@ def mutants(corpus: Corpus):
     st = find_node(f, lambda n: isinstance(n, ast.Expr) and isinstance(n.value, ast.Call) and unparse(n.value.func) == "self.document.note_explicit_target" and n.value.args and unparse(n.value.args[0]) == "node")
     add("c03-math-label-id-written-directly", "C03.R9", base, st, "node['ids'].append(nodes.make_id(name))", "render_math_block_label")
     f = mk.func("MockInliner.parse")
+    dl = find_node(f, lambda n: isinstance(n, ast.For) and any("parent.remove" in unparse(x) for x in n.body))
+    r0 = find_node(f, lambda n: isinstance(n, ast.Return) and isinstance(n.value, ast.Tuple) and len(n.value.elts) == 2)
+    if dl is not None and r0 is not None:
+        add("c03-inline-messages-reported-but-left-in-the-text", "C03.R5", mk, dl, "pass", "returned node collections")
+        first = r0.value.elts[0]
+        msgs = find_node(f, lambda n: isinstance(n, ast.Assign) and isinstance(n.targets[0], ast.Name) and n.targets[0].id == unparse(r0.value.elts[1]))
+        if msgs is not None:
+            out.append(Mutant("c03-inline-text-snapshot-taken-before-messages-are-removed", "C03.R5", mk.rel, _splice_many(mk.src, [(first, "textnodes"), (msgs, f"textnodes = list({unparse(first)})\n" + _indent(mk, msgs) + _stmt_text(mk, msgs))]), expect="returned node collections"))
+        add("c03-inline-messages-removed-only-when-top-level", "C03.R5", mk, dl.body[0], f"if {unparse(dl.target)}.parent is container:\n" + _indent(mk, dl.body[0]) + "    " + _stmt_text(mk, dl.body[0]), "returned node collections")
+    else:
+        out.append(("c03-inline-messages-reported-but-left-in-the-text", "message removal loop of MockInliner.parse not found"))
     r_ = find_node(f, lambda n: isinstance(n, ast.Return) and isinstance(n.value, ast.Tuple) and len(n.value.elts) == 2 and unparse(n.value.elts[0]).endswith(".children"))
     if r_ is not None:
         ch = unparse(r_.value.elts[0])
